@@ -49,6 +49,19 @@ application type (abort if unrepresentable) -/
 def tvLoad (abi : Abi) (t : BaseTy) (a : Nat) (m : Mem) : Option Int :=
   toApplication abi t ((t.guest abi).ofBits (decodeLE (m.read a (t.guest abi).bytes)))
 
+/-- `*pd = *ps` for sandbox references to integers `U` (source) and `T` (destination): the source is
+read with ITS guest width and decoded per ITS guest type, converted to the guest type of `T`
+(abort if unrepresentable: `convert_type_non_class<NO_CHANGE>`), and exactly `guest T` bytes are
+written at the destination -/
+def tvCopy (abi : Abi) (t u : BaseTy) (dst src : Nat) (m : Mem) : Option Mem :=
+  match convertFund (t.guest abi) (u.guest abi) ((u.guest abi).ofBits (decodeLE (m.read src (u.guest abi).bytes))) with
+  | none => none
+  | some r => some (m.write dst (encodeLE (t.guest abi).bytes ((t.guest abi).toBits r)))
+
+/-- the guest value a cell of type `T` holds -/
+def guestValueAt (abi : Abi) (t : BaseTy) (a : Nat) (m : Mem) : Int :=
+  (t.guest abi).ofBits (decodeLE (m.read a (t.guest abi).bytes))
+
 /-! ## Pointer translation -/
 
 /-- a live sandbox of a mask-based backend: region + guest pointer width (bytes) -/
@@ -91,5 +104,36 @@ def findSandbox (reg : List Sbx) (ex : Nat) : Option Sbx := reg.find? fun s => d
 def ptrStore (k ptrBytes : Nat) (cell a : Nat) : Nat := toGuestNoCtx k ptrBytes cell a
 /-- load of a pointer from a cell at address `cell` holding representation `rep` -/
 def ptrLoad (k : Nat) (cell rep : Nat) : Nat := toAppNoCtx k cell rep
+
+/-- a pointer store into the cell at offset `off` of sandbox `s`'s memory image: exactly `ptrBytes`
+bytes, holding the representation relative to THIS sandbox (example = the cell's own address) -/
+def ptrStoreMem (s : Sbx) (off a : Nat) (m : Mem) : Mem :=
+  m.write off (encodeLE s.ptrBytes (ptrStore s.region.k s.ptrBytes (s.region.base + off) a))
+
+/-! ## Function pointers: table-based representation -/
+
+/-- what an application-side function-pointer value designates -/
+inductive FnRef | null | lib (i : Nat) | cb (k : Nat) | other
+deriving DecidableEq, Repr
+
+/-- the backend's table lookup for a representation (`impl_get_unsandboxed_pointer<Fn>`): library
+functions occupy 1..nlib, callback entry points cbBase..cbBase+ncb-1; anything else is a non-null,
+non-callable marker -/
+def backendFn (nlib cbBase ncb rep : Nat) : FnRef :=
+  if cbBase ≤ rep ∧ rep < cbBase + ncb then .cb (rep - cbBase)
+  else if 1 ≤ rep ∧ rep ≤ nlib then .lib (rep - 1) else .other
+
+/-- `get_unsandboxed_pointer<Fn>(rep)` -- with the sandbox context (call results, callback
+arguments) and without it (memory cells, after the owning instance has been found): the
+representation 0 becomes null BEFORE the backend is consulted -/
+def fnToApp (nlib cbBase ncb rep : Nat) : FnRef :=
+  if rep = 0 then .null else backendFn nlib cbBase ncb rep
+
+/-- `get_sandboxed_pointer<Fn>(p)`: null becomes 0 before the backend is consulted -/
+def fnToGuest (cbBase : Nat) : FnRef → Option Nat
+  | .null => some 0
+  | .lib i => some (i + 1)
+  | .cb k => some (cbBase + k)
+  | .other => none
 
 end Rlbox
